@@ -215,7 +215,7 @@ Definition fss_2d_binary_m (v : variant) (pad : bool) (is_bool check_boolean : b
 (* ------------------------------------------------------------------------------------------ *)
 Definition d_rows (r : raw) : option (list (list xv)) := d_list d_xvs r.
 Definition d_op (r : raw) : option (option top) := match d_str r with Some s => Some (top_of_string s) | None => None end.
-Definition e_q (q : Q) : raw := e_xv (XFin q).
+Definition c16_e_q (q : Q) : raw := e_xv (XFin q).
 Definition odd3 (w : Z) : bool := Z.odd w && (3 <=? w)%Z.
 
 Definition entries_C16 : list entry := [
@@ -224,8 +224,8 @@ Definition entries_C16 : list entry := [
      match r with RL [f; o; th; op; wh; ww; pad] =>
        let? f := d_rows f in let? o := d_rows o in let? th := d_xv th in let? op := d_op op in
        let? wh := d_z wh in let? ww := d_z ww in let? pad := d_bool pad in
-       Some (RL [e_result e_q (fss_single VSat pad op th f o wh ww);
-                 e_result e_q (fss_single VDef pad op th f o wh ww)])
+       Some (RL [e_result c16_e_q (fss_single VSat pad op th f o wh ww);
+                 e_result c16_e_q (fss_single VDef pad op th f o wh ww)])
      | _ => None end));
   (* ( fcst obs th 'op wh ww ( 'sx 'sy ) pad rd pd ) -> ( sat def ) *)
   ("c16_fss2d", fun r => orun (
@@ -251,6 +251,6 @@ Definition entries_C16 : list entry := [
        let? l := d_list (fun t => match t with RL [a; b; c] =>
                    let? a := d_q a in let? b := d_q b in let? c := d_q c in Some {| cf := a; co := b; cd := c |}
                  | _ => None end) l in
-       Some (e_q (aggregate l))
+       Some (c16_e_q (aggregate l))
      | _ => None end))
 ].
